@@ -957,3 +957,74 @@ Proof.
   - intros o Hd Hf. rewrite (bytes_step_refines fx v o Hw Hd).
     rewrite (failed_op_unchanged true v o Hf). reflexivity.
 Qed.
+
+(* ================= ReplaceByPath ================= *)
+Lemma wlookup_found : forall p v off sub o, lookup v off p = LFound sub o ->
+  wlookup v off p = WFound (type_of sub) o (o + zlen (encode sub)).
+Proof.
+  induction p as [|s p IH]; intros v off sub o H; cbn [lookup wlookup] in *.
+  - inversion H; subst. reflexivity.
+  - destruct (lookup1 v s) as [c oc| |]; try discriminate H. apply IH. exact H.
+Qed.
+
+Lemma wlookup_not_found : forall p v off, (forall sub o, lookup v off p <> LFound sub o) ->
+  forall t s e, wlookup v off p <> WFound t s e.
+Proof.
+  induction p as [|s p IH]; intros v off H t s' e; cbn [lookup wlookup] in *.
+  - exfalso. apply (H v off). reflexivity.
+  - destruct (lookup1 v s) as [c oc| |]; [apply IH; exact H| |discriminate]. destruct p; discriminate.
+Qed.
+
+Lemma set_dom_found : forall p v off sub o, lookup v off p = LFound sub o -> set_dom p v = true.
+Proof.
+  induction p as [|s p IH]; intros v off sub o H; [reflexivity|]. cbn [lookup set_dom] in *.
+  destruct (lookup1 v s) as [c oc| |]; try discriminate H. eapply IH. exact H.
+Qed.
+
+Theorem replace_refines : forall p cb v, wf v = true -> (depth v <= max_skip_depth)%nat ->
+  replace_by_path (type_of v) (encode v) p (cb_bytes cb) = rres_of (ast_replace p cb v).
+Proof.
+  intros p cb v Hw Hdp. assert (Hg : good v) by (split; assumption).
+  unfold replace_by_path, ast_replace. pose proof (walk_refines p v [] 0 Hg) as HW. rewrite app_nil_r in HW. rewrite HW.
+  destruct (lookup v 0 p) as [sub o| |] eqn:L.
+  - rewrite (wlookup_found _ _ _ _ _ L). pose proof (set_dom_found _ _ _ _ _ L) as Hd.
+    destruct cb as [x| |]; cbn [cb_bytes rres_of].
+    + pose proof (set_spec p x v 0 Hg Hd) as HS. rewrite L in HS. rewrite (wlookup_found _ _ _ _ _ L) in HS.
+      destruct (ast_set true p x v) as [[v' [|]]|].
+      * destruct HS as [sub' [pre [post [Hl [_ [Ht [E E']]]]]]]. inversion Hl; subst sub' o.
+        rewrite Ht, Z.eqb_refl. cbn [rres_of]. f_equal. rewrite E at 1. rewrite replace_mid by lia. symmetry. exact E'.
+      * destruct HS as [ct [pos [q [ls [_ [HWn _]]]]]]. discriminate HWn.
+      * rewrite HS. reflexivity.
+    + pose proof (set_spec p sub v 0 Hg Hd) as HS. rewrite L in HS. rewrite (wlookup_found _ _ _ _ _ L) in HS.
+      destruct (ast_set true p sub v) as [[v' [|]]|].
+      * destruct HS as [sub' [pre [post [Hl [_ [_ [E E']]]]]]]. inversion Hl; subst sub' o. cbn [rres_of]. f_equal.
+        rewrite E. rewrite (slice_mid pre (encode sub) post) by lia. rewrite replace_mid by lia. symmetry. exact E'.
+      * destruct HS as [ct [pos [q [ls [_ [HWn _]]]]]]. discriminate HWn.
+      * rewrite Z.eqb_refl in HS. discriminate HS.
+    + reflexivity.
+  - destruct (wlookup v 0 p) as [t s e| | |] eqn:EW; try reflexivity.
+    exfalso. eapply (wlookup_not_found p v 0); [|exact EW]. intros sub o H. rewrite L in H. discriminate H.
+  - destruct (wlookup v 0 p) as [t s e| | |] eqn:EW; try reflexivity.
+    exfalso. eapply (wlookup_not_found p v 0); [|exact EW]. intros sub o H. rewrite L in H. discriminate H.
+Qed.
+
+(* on an existing element ReplaceByPath with a callback that returns x IS SetByPath of x *)
+Corollary replace_is_set_when_present p x v sub o : wf v = true -> (depth v <= max_skip_depth)%nat ->
+  lookup v 0 p = LFound sub o ->
+  replace_by_path (type_of v) (encode v) p (CbConst (type_of x) (encode x)) =
+    match ast_set true p x v with Some (v', _) => ROk (encode v') | None => RErr true end.
+Proof.
+  intros Hw Hdp L. change (CbConst (type_of x) (encode x)) with (cb_bytes (ACConst x)).
+  rewrite (replace_refines p (ACConst x) v Hw Hdp). unfold ast_replace. rewrite L.
+  destruct (ast_set true p x v) as [[v' ex]|]; reflexivity.
+Qed.
+
+(* on an absent element (or a path that does not fit) it is an error with exist = false and the value unchanged, whatever
+   the callback *)
+Corollary replace_absent_unchanged p cb v : wf v = true -> (depth v <= max_skip_depth)%nat ->
+  (forall sub o, lookup v 0 p <> LFound sub o) ->
+  replace_by_path (type_of v) (encode v) p (cb_bytes cb) = RErr false /\ ast_replace p cb v = (None, false).
+Proof.
+  intros Hw Hdp H. rewrite (replace_refines p cb v Hw Hdp). unfold ast_replace.
+  destruct (lookup v 0 p) as [sub o| |] eqn:L; [exfalso; apply (H sub o); reflexivity| |]; split; reflexivity.
+Qed.
